@@ -90,3 +90,18 @@ func rcM2(c *rcSRP) []byte {
 	}
 	return rcHash(c.A, c.M1, c.K)
 }
+
+// rcM1 is the client proof M1 = H(H(N) xor H(g) | H(I) | s | A | B | K) for values the
+// caller knows (A as the minimal big-endian encoding the server hashes).
+func rcM1(salt, A, B, K []byte) []byte {
+	if verif.IsSymbolic() {
+		return models.SRPClientM1([]byte("Pair-Setup"), salt, A, B, K)
+	}
+	N, g := rcGroup()
+	hn := new(big.Int).SetBytes(rcHash(N.Bytes()))
+	hg := new(big.Int).SetBytes(rcHash(g.Bytes()))
+	hng := hn.Xor(hn, hg)
+	An := new(big.Int).SetBytes(A).Bytes()
+	Bn := new(big.Int).SetBytes(B).Bytes()
+	return rcHash(hng.Bytes(), rcHash([]byte("Pair-Setup")), salt, An, Bn, K)
+}
